@@ -10,7 +10,9 @@ COMPONENTS = {
              'in-memory bytes)', 'copy / dill / json'],
     'stubbed': ['disk (SimDisk behind formulas.excel.xlreader.load_workbook)',
                 'clock (SimClock as formulas.functions.date.datetime)',
-                'RNG seeding (np.random.seed from the run seed)',
+                'RNG state (np.random.seed from the run seed; C13 also edits '
+                'the MT19937 state so that one evaluation per run draws the '
+                'largest double below 1 or 0.0)',
                 'executor (lazy futures returned by compile_cell)',
                 'user function SIMFAULT (get_functions registry)'],
 }
